@@ -131,4 +131,89 @@ theorem totpWindow_iff (chk : Nat → Bool) (n s : Nat) (hlo : s ≤ n) (hov : n
     have : ((n : Int) + ((n' : Int) - n)).toNat = n' := by omega
     rw [this]; exact h3
 
+/-- the counter the TOTP loop examines at offset `j`, for every `j` of a window of at most 2^63 steps:
+`(n + j) mod 2^64` — below step 0 the window continues at the top of the 64-bit range, above 2^64-1 at 0 -/
+theorem totp_counter_wrap (n : Nat) (hn : n < 2 ^ 64) (j : Int) (h1 : -(2 ^ 63 : Int) ≤ j) (h2 : j < 2 ^ 63) :
+    (n + toU64 j) % 2 ^ 64 = (((n : Int) + j) % (2 ^ 64 : Int)).toNat := by
+  by_cases hneg : j < 0
+  · rw [toU64_neg j hneg (by omega)]
+    by_cases hlow : (n : Int) + j < 0
+    · have e1 : n + (2 ^ 64 - (-j).toNat) < 2 ^ 64 := by omega
+      rw [Nat.mod_eq_of_lt e1]
+      have e2 : ((n : Int) + j) % (2 ^ 64 : Int) = (n : Int) + j + 2 ^ 64 := by omega
+      rw [e2]; omega
+    · have e1 : n + (2 ^ 64 - (-j).toNat) = ((n : Int) + j).toNat + 2 ^ 64 := by omega
+      rw [e1, Nat.add_mod_right, Nat.mod_eq_of_lt (by omega)]
+      have e2 : ((n : Int) + j) % (2 ^ 64 : Int) = (n : Int) + j := by omega
+      rw [e2]
+  · rw [toU64_nonneg j (by omega) (by omega)]
+    by_cases hhi : n + j.toNat < 2 ^ 64
+    · rw [Nat.mod_eq_of_lt hhi]
+      have e2 : ((n : Int) + j) % (2 ^ 64 : Int) = (n : Int) + j := by omega
+      rw [e2]; omega
+    · have e1 : n + j.toNat = (n + j.toNat - 2 ^ 64) + 2 ^ 64 := by omega
+      rw [e1, Nat.add_mod_right, Nat.mod_eq_of_lt (by omega)]
+      have e2 : ((n : Int) + j) % (2 ^ 64 : Int) = (n : Int) + j - 2 ^ 64 := by omega
+      rw [e2]; omega
+
+/-- TOTP window without any side condition on where the window lies: the loop accepts iff the check passes at
+`(n + j) mod 2^64` for some offset `-s ≤ j ≤ s` (this is what `counter + uint64(i)` computes) -/
+theorem totpWindow_wrap_iff (chk : Nat → Bool) (n s : Nat) (hn : n < 2 ^ 64) (hs : s < 2 ^ 63) :
+    (windowLoop (totpProbe (fun c => .ok (chk c)) n) (s : Int) (2 * s + 1) (-(s : Int)) = .ok true ↔
+      ∃ j : Int, -(s : Int) ≤ j ∧ j ≤ s ∧ chk ((((n : Int) + j) % (2 ^ 64 : Int)).toNat) = true) ∧
+    (windowLoop (totpProbe (fun c => .ok (chk c)) n) (s : Int) (2 * s + 1) (-(s : Int)) = .ok true ∨
+     windowLoop (totpProbe (fun c => .ok (chk c)) n) (s : Int) (2 * s + 1) (-(s : Int)) = .ok false) := by
+  have hp : ∀ i, totpProbe (fun c => .ok (chk c)) n i = .ok (chk ((n + toU64 i) % 2 ^ 64)) := fun i => rfl
+  have h := windowLoop_iff (totpProbe (fun c => .ok (chk c)) n) _ hp (s : Int) (2 * s + 1) (-(s : Int)) (by omega)
+  refine ⟨?_, h.2⟩
+  rw [h.1]
+  constructor
+  · rintro ⟨j, h1, h2, h3⟩
+    rw [totp_counter_wrap n hn j (by omega) (by omega)] at h3
+    exact ⟨j, h1, h2, h3⟩
+  · rintro ⟨j, h1, h2, h3⟩
+    refine ⟨j, h1, h2, ?_⟩
+    rw [totp_counter_wrap n hn j (by omega) (by omega)]; exact h3
+
+/-- HOTP window without the side condition `c + s < 2^64`: below 0 the window is cut off, above 2^64-1 it wraps -/
+theorem hotpWindow_wrap_iff (chk : Nat → Bool) (c s : Nat) (hc : c < 2 ^ 64) (hs : s < 2 ^ 63) :
+    (windowLoop (hotpProbe (fun c => .ok (chk c)) c) (s : Int) (2 * s + 1) (-(s : Int)) = .ok true ↔
+      ∃ j : Int, -(s : Int) ≤ j ∧ j ≤ s ∧ 0 ≤ (c : Int) + j ∧ chk ((((c : Int) + j) % (2 ^ 64 : Int)).toNat) = true) ∧
+    (windowLoop (hotpProbe (fun c => .ok (chk c)) c) (s : Int) (2 * s + 1) (-(s : Int)) = .ok true ∨
+     windowLoop (hotpProbe (fun c => .ok (chk c)) c) (s : Int) (2 * s + 1) (-(s : Int)) = .ok false) := by
+  have h := windowLoop_iff (hotpProbe (fun c => .ok (chk c)) c) _ (hotpProbe_ok chk c) (s : Int) (2 * s + 1) (-(s : Int)) (by omega)
+  refine ⟨?_, h.2⟩
+  rw [h.1]
+  constructor
+  · rintro ⟨j, h1, h2, h3⟩
+    by_cases hneg : j < 0
+    · simp only [hneg, if_true] at h3
+      by_cases hu : c < (-j).toNat
+      · simp [hu] at h3
+      · simp only [hu, if_false] at h3
+        refine ⟨j, h1, h2, by omega, ?_⟩
+        have e : (((c : Int) + j) % (2 ^ 64 : Int)).toNat = c - (-j).toNat := by
+          have : ((c : Int) + j) % (2 ^ 64 : Int) = (c : Int) + j := by omega
+          rw [this]; omega
+        rw [e]; exact h3
+    · simp only [hneg, if_false] at h3
+      refine ⟨j, h1, h2, by omega, ?_⟩
+      have e : (((c : Int) + j) % (2 ^ 64 : Int)).toNat = (c + j.toNat) % 2 ^ 64 := by
+        omega
+      rw [e]; exact h3
+  · rintro ⟨j, h1, h2, h0, h3⟩
+    refine ⟨j, h1, h2, ?_⟩
+    by_cases hneg : j < 0
+    · simp only [hneg, if_true]
+      have hu : ¬ c < (-j).toNat := by omega
+      simp only [hu, if_false]
+      have e : (((c : Int) + j) % (2 ^ 64 : Int)).toNat = c - (-j).toNat := by
+        have : ((c : Int) + j) % (2 ^ 64 : Int) = (c : Int) + j := by omega
+        rw [this]; omega
+      rw [← e]; exact h3
+    · simp only [hneg, if_false]
+      have e : (((c : Int) + j) % (2 ^ 64 : Int)).toNat = (c + j.toNat) % 2 ^ 64 := by
+        omega
+      rw [← e]; exact h3
+
 end OtpVerif.Lemmas
